@@ -9,6 +9,8 @@ address pair (menus: ipaddress / inet_ntop style formatting realises its input),
 index, mutated position.  The oracle is written from the PROXY protocol specification
 (haproxy doc/proxy-protocol.txt 2.1, 2.2), not from the code.
 """
+import operator as _operator
+
 from twisted.internet import address as _address
 from twisted.internet import protocol as _protocol
 
@@ -98,8 +100,28 @@ class _l_address:
 # is run on the patched class by this module's selftest()).  Installed for this property's
 # processes only.
 
+def _clen(s):
+    """len(s) as a plain int (a symbolic length expression would cost a solver query per loop test;
+    the lengths in this check are all determined by the case splits)"""
+    n = len(s)
+    if lbytes._is_conc(n):
+        return n
+    return _operator.index(n)
+
+
+def _fix(s):
+    """the same text rebuilt from its characters, so that its length is a plain int: a harness argument
+    has a symbolic length expression (even when a precondition pins it), and every index or slice of a
+    string that contains it then costs solver queries"""
+    n = _clen(s)
+    out = ""
+    for i in range(n):
+        out = out + s[i]
+    return out
+
+
 def _scan_find(s, sub, start=0):
-    n, m = len(s), len(sub)
+    n, m = _clen(s), len(sub)
     i = start
     while i + m <= n:
         j = 0
@@ -171,8 +193,39 @@ def _lb_startswith(self, p, *a):
     return True
 
 
+def _lb_decode(self, enc="utf-8", errors="strict"):
+    # LBytes.decode builds UnicodeDecodeError(..., self.s.encode("latin-1"), ...), which realises a
+    # symbolic text (one path per non-ASCII value); the exception's payload never matters here
+    if errors == "strict" and not lbytes._is_conc(self.s) and enc.lower() in ("ascii", "us-ascii", "utf-8", "utf8"):
+        for ch in self.s:
+            if ch > "\x7f":
+                raise UnicodeDecodeError("ascii", b"?", 0, 1, "ordinal not in range(128)")
+        return self.s
+    return _orig_decode(self, enc, errors)
+
+
+def _lb_rstrip(self, chars=None):
+    cs = lbytes._WS if chars is None else lbytes._s(chars)
+    s = self.s
+    n = _clen(s)
+    while n > 0:
+        ch = s[n - 1]
+        hit = False
+        for c in cs:
+            if ch == c:
+                hit = True
+                break
+        if not hit:
+            break
+        n -= 1
+    return self._new(s[:n])
+
+
 _orig_startswith = lbytes._LBase.startswith
+_orig_decode = lbytes._LBase.decode
 if api.MODE != "real":
+    lbytes._LBase.decode = _lb_decode
+    lbytes._LBase.rstrip = _lb_rstrip
     lbytes._LBase.find = _lb_find
     lbytes._LBase.__contains__ = _lb_contains
     lbytes._LBase.split = _lb_split
@@ -407,6 +460,7 @@ def v1split(proto: int, ai: int, pay: str, split: int) -> bool:
     pre: 0 <= split <= 100
     post: _
     """
+    pay = _fix(pay)
     pr = _menu(2, proto)
     a = _menu(2, ai)
     if pr == 0:
@@ -450,6 +504,7 @@ def v1ports(kind: int, x: str, split: int) -> bool:
     pre: 0 <= split <= 3
     post: _
     """
+    x = _fix(x)
     kd = _menu(3, kind)
     x = _conc_digits(x)
     if kd < 2:
@@ -482,6 +537,8 @@ def v1junk(x: str, y: str, split: int) -> bool:
     pre: 0 <= split <= 5
     post: _
     """
+    x = _fix(x)
+    y = _fix(y)
     # "the receiver must ignore anything presented before the CRLF is found"
     pre = "PROXY UNKNOWN "
     hdr = pre + x + " " + y + "\r\n"
@@ -691,6 +748,7 @@ def v1bad(base: int, pos: int, ch: str, split: int) -> bool:
     pre: 0 <= split <= B['msplit']
     post: _
     """
+    ch = _fix(ch)
     bi = _menu(3, base)
     hdr = _V1BASE[bi]
     plist = _v1positions(bi)
@@ -750,6 +808,10 @@ def v2inet(cmd: int, fam: int, sp: str, dp: str, ntlv: int, tlv: str, pay: str, 
     pre: 0 <= split <= 70
     post: _
     """
+    sp = _fix(sp)
+    dp = _fix(dp)
+    tlv = _fix(tlv)
+    pay = _fix(pay)
     c = _menu(1, cmd)
     fi = _menu(3, fam)
     f = _INET[fi]
@@ -786,6 +848,10 @@ def v2unix(dgram: int, ua: str, ub: str, ntlv: int, tlv: str, pay: str, split: i
     pre: 0 <= split <= 11
     post: _
     """
+    ua = _fix(ua)
+    ub = _fix(ub)
+    tlv = _fix(tlv)
+    pay = _fix(pay)
     f = 0x31 + _menu(1, dgram)
     extra = tlv if _menu(1, ntlv) == 1 else ""
     body = ua + "\x00" * (108 - len(ua)) + ub + "\x00" * (108 - len(ub)) + extra
@@ -808,6 +874,8 @@ def v2unspec(cmd: int, ntlv: int, tlv: str, pay: str, split: int) -> bool:
     pre: 0 <= split <= 30
     post: _
     """
+    tlv = _fix(tlv)
+    pay = _fix(pay)
     c = _menu(1, cmd)
     extra = tlv if _menu(1, ntlv) == 1 else ""
     hdr = SIG + chr(0x20 + c) + "\x00" + _len2(len(extra)) + extra
@@ -856,6 +924,7 @@ def v2bad(pos: int, ch: str, split: int) -> bool:
     pre: 0 <= split <= 1
     post: _
     """
+    ch = _fix(ch)
     sb, st, db, dt = _B4[0]
     hdr = SIG + "\x21\x11" + _len2(12) + sb + db + "\x00\x50" + "\x01\xbb"
     p = _split_cases(15, pos)
@@ -882,7 +951,7 @@ def _v1bad_shards(tier):
     out = []
     for bi in range(4):
         n = len(_V1BASE[bi]) if BOUNDS[tier].get("allpos") else len(_V1POS[bi])
-        step = 7 if BOUNDS[tier].get("allpos") else 5
+        step = (6 if BOUNDS[tier].get("allpos") else 3) if bi < 2 else 9
         for s in range(0, BOUNDS[tier]["msplit"] + 1):
             lo = 0
             while lo < n:
